@@ -109,7 +109,12 @@ class QTensorLinear(torch.autograd.Function):
                 bits=4,
                 group_size=other._group_size,
             )
-        elif isinstance(other, QBytesTensor):
+        elif (
+            isinstance(other, QBytesTensor)
+            # The scales can only be applied to the outputs if they are not indexed by the contracted dimension
+            and other.axis != -1
+            and not (isinstance(input, QBytesTensor) and input.axis is not None)
+        ):
             if isinstance(input, QBytesTensor):
                 output = torch.ops.quanto.qbytes_mm(input._data, other._data, input._scale * other._scale)
             else:
